@@ -17,6 +17,9 @@ CHECKS = {
     "C03": (A, "4.3", "online shadow-authentication monitor (independent MD5) over adversarial multi-session histories against the real iodined; privileged effects identified at the process boundary and by unique packet ids, plus users[] snapshot diffs at every select()",
             "held on every executed history: login accepts, I/S/O/N acknowledgements, raw-login replies, server tun writes, client-to-client forwards, settings changes and authenticated flags all preceded by a correct response to the slot's current challenge",
             "histories are seeded samples; the oracle only demands 'login before effect' and never predicts replies; fragment-size probes and ping/data acknowledgements are not treated as privileged"),
+    "C04": (A, "4.4", "differential monitor (same seeded time-scripted scenario with and without spoofed requests; victim-visible observables compared) + offline history monitors for routing by tunnel address, slot takeover and expiry over adversarial multi-session histories",
+            "held on every executed pair and history: every request naming the victim's userid from a foreign address refused and without effect on the packets delivered to the victim, its session row, its transfer state and the server's tun writes; packets for address A delivered only to the logged-in holder of A; no VACK for a slot with an accepted message < 60 s earlier; no service after > 60 s of silence",
+            "observables are compared at a granularity insensitive to when a datagram wakes the server inside its 20 ms send-real-soon window; behaviour at exactly 60 s is not asserted; a correct raw login from another address legitimately rebinds"),
     "C05": (A, "4.5", "ASan/UBSan inside the real iodined + watchdog + health probe under structure-aware hostile datagram generators",
             "no sanitizer report, exit or stall on any executed hostile input sequence (7 generator classes x 9 pre-attack session states x server options), and a session established before the attack still moved a frame each way afterwards",
             "a clean sanitizer run is not memory safety (intra-object / non-adjacent overflows invisible); only executed paths are judged; GCC-defined signed '<<' (shift-base) is not counted as UB"),
